@@ -47,8 +47,26 @@ fn scale_up(xs: &[Rat], e: u32) -> Vec<Rat> {
     xs.iter().map(|r| Rat(r.0 << e, r.1)).collect()
 }
 
+/// one prefix is hundreds of values long (N <= 8): what a view did 256 or 512 updates ago must not matter either
+fn strategy_long(vd: &'static ViewDef) -> BoxedStrategy<Case> {
+    (vd.min_n..=vd.min_n + 7, 1usize..=4, gen::dyadic_scale())
+        .prop_flat_map(move |(n, m, sc)| {
+            let k = (vd.k)(n, m);
+            let cfg = StreamCfg::new(n).scale(sc).kmax(512);
+            (gen::stream(cfg.len(k, k + n).segs(5)), gen::long_stream(cfg, 250, 700), gen::stream(cfg.len(0, 3 * n).segs(3))).prop_map(move |(s, p1, p2)| Case { spec: Some((vd.mk)(n, m)), xs: p1, ys: p2, zs: s, a: Rat(1, 1), b: Rat(0, 1), ints: vec![k as i64, n as i64], ..Default::default() })
+        })
+        .boxed()
+}
+
 fn strategy(vd: &'static ViewDef, max_exp: u32) -> impl Fn(Tier) -> BoxedStrategy<Case> + Send + Sync {
     move |tier: Tier| {
+        let long = strategy_long(vd);
+        let short = strategy_short(vd, max_exp, tier);
+        prop_oneof![12 => short, 1 => long].boxed()
+    }
+}
+fn strategy_short(vd: &'static ViewDef, max_exp: u32, tier: Tier) -> BoxedStrategy<Case> {
+    {
         (gen::window(tier, vd.min_n, 24, 120), 1usize..=6, gen::dyadic_scale(), 0u32..=max_exp, 0u32..=max_exp, 0usize..4, 0usize..4)
             .prop_flat_map(move |(n, m, sc, e1, e2, r, mode)| {
                 let k = (vd.k)(n, m);
